@@ -46,11 +46,15 @@ package pair
 //@   modifies p.PrivateKey, srpkey(p.session), keyset(p.session)
 //@   ensures err == nil ==> seq(p.PrivateKey) == srpkey(p.session) && keyset(p.session) && fresh(p.PrivateKey) && len(p.PrivateKey) > 0
 //@   ensures err != nil ==> unchanged(p.PrivateKey) && srpkey(p.session) == old(srpkey(p.session)) && keyset(p.session) == old(keyset(p.session))
+// it fails for an unacceptable client public key only
+//@   ensures aok: (err == nil) == srp_keyok(p.session, old(seq(key)))
 
 //@ func (p *SetupServerSession) ProofFromClientProof(clientProof) (proof, err)
 //@   requires p != nil && p.session != nil
 //@   ensures err == nil && keyset(p.session) ==> proven(srpkey(p.session))
 //@   ensures err != nil ==> proof == nil
+// it fails exactly when the client proof is not the one for this exchange's secret (i.e. the setup code is wrong)
+//@   ensures m1: (err == nil) == srp_M1ok(srpkey(p.session), seq(clientProof))
 //@   ensures err == nil ==> len(proof) > 0 && fresh(proof) && seq(proof) == srp_M2(srpkey(p.session), seq(clientProof))
 
 //@ func (p *SetupServerSession) SetupEncryptionKey(salt, info) (err)
@@ -58,6 +62,7 @@ package pair
 //@   modifies p.EncryptionKey
 //@   ensures err == nil ==> seq(p.EncryptionKey) == hkdf(old(seq(p.PrivateKey)), old(seq(salt)), old(seq(info)))
 //@   ensures err != nil ==> unchanged(p.EncryptionKey)
+//@   ensures never: err == nil
 
 // ---------------------------------------------------------------- pair-setup controller (C02, C13)
 
@@ -124,6 +129,11 @@ package pair
 //@   ensures m4ok: err == nil && setup.step == 4 ==> cval(out, 7) == empty() && cval(out, 4) == srp_M2(srpkey(setup.session.session), cval(in, 4))
 //@   ensures m4err: err == nil && setup.step == 0 ==> cval(out, 7) == unit(2) && cval(out, 4) == empty()
 //@   ensures m4only: err == nil ==> forall(t, 0, 256, t != 4 && t != 6 && t != 7 ==> cval(out, t) == empty())
+// every M3 with an acceptable public key is answered with an M4 (C04: a wrong setup code gets the authentication error of
+// m4err, not a dropped request), and which of the two answers it is depends on the client proof only
+//@   ensures m4answer: srp_keyok(setup.session.session, cval(in, 3)) ==> err == nil
+//@   ensures m4wrong: err == nil && !srp_M1ok(srpkey(setup.session.session), cval(in, 4)) ==> setup.step == 0
+//@   ensures m4right: err == nil && srp_M1ok(srpkey(setup.session.session), cval(in, 4)) ==> setup.step == 4
 
 //@ func (setup *SetupServerController) handleKeyExchange(in) (out, err)
 //@   requires setupInv(setup) && in != nil && setup.step == 4
